@@ -61,18 +61,83 @@ theorem handleAppend_wf (c : Ctx) (cmd : List Bytes) : (handleAppend c cmd).AllR
 
 theorem subStrPure_wf (value : Bytes) (s e : Int) (r : Res) (h : subStrPure value s e = .done r) : Res.WFok r := by
   unfold subStrPure at h
-  extract_lets len st e1 e2 e3 rev lo hi at h
+  extract_lets se rev lo hi str at h
   split at h
-  · cases h
   · split at h
-    · split at h
-      · cases h
-      · injection h with h; subst h; exact wf_bulk _
+    · cases h
     · injection h with h; subst h; exact wf_bulk _
+  · injection h with h; subst h; exact wf_bulk _
+
+/-- GETRANGE / SUBSTR index arithmetic never leaves the string: the slice `value[lo:hi]` the handler takes
+    always satisfies `0 ≤ lo ≤ hi ≤ len`, for every start and end. -/
+theorem subStrIdx_bounds (len start end_ : Int) (hl : 0 ≤ len) :
+    0 ≤ (subStrIdx len start end_).1 ∧ (subStrIdx len start end_).1 ≤ len ∧
+    0 ≤ (subStrIdx len start end_).2 ∧ (subStrIdx len start end_).2 ≤ len := by
+  unfold subStrIdx
+  extract_lets s1 e1 s2 s3 e2 e3 e4 e5
+  refine ⟨?_, ?_, ?_, ?_⟩ <;>
+    (simp only [s3, s2, e5, e4, e3, e2, Bool.and_eq_true, decide_eq_true_eq]; repeat' split) <;> omega
+
+/-- GETRANGE / SUBSTR cannot panic: the computation always finishes (or is outside the exactly-modelled
+    domain: a reversed range over non-ASCII bytes) -/
+theorem subStrPure_no_panic (value : Bytes) (s e : Int) (w : String) : subStrPure value s e ≠ .panic w := by
+  unfold subStrPure
+  extract_lets se rev lo hi str
+  split
+  · split <;> simp
+  · simp
 
 theorem handleSubStr_wf (c : Ctx) (cmd : List Bytes) : (handleSubStr c cmd).AllRet Res.WFok := by
   apply allRet_full; unfold handleSubStr; wf
   all_goals exact ofOutcome_rx _ _ (fun a h => Or.inl (subStrPure_wf _ _ _ a h))
+
+/-- a program without a `panic` leaf whose primitives are the two total readers `KeysExist` / `GetValues` -/
+def Prog.ReadsNoPanic {α : Type} : Prog α → Prop
+  | .ret _ => True
+  | .unmod _ => True
+  | .panic _ => False
+  | .call (.keysExist _) k => ∀ r, (k r).ReadsNoPanic
+  | .call (.getValues _) k => ∀ r, (k r).ReadsNoPanic
+  | .call _ _ => False
+
+theorem readsNoPanic_run {α : Type} (c : Ctx) : ∀ (p : Prog α) (s : State), p.ReadsNoPanic →
+    ∀ w, (p.run c s).2 ≠ .panic w := by
+  intro p
+  induction p with
+  | ret a => intro s _ w; simp [Prog.run]
+  | unmod y => intro s _ w; simp [Prog.run]
+  | panic y => intro s h; exact absurd h (by simp [Prog.ReadsNoPanic])
+  | call q k ih =>
+    intro s h w
+    cases q with
+    | keysExist ks => exact ih _ s (h _) w
+    | getValues ks => exact ih _ _ (h _) w
+    | _ => exact absurd h (by simp [Prog.ReadsNoPanic])
+
+theorem ofOutcome_readsNoPanic {α : Type} (o : Outcome α) (h : ∀ w, o ≠ .panic w) : (Prog.ofOutcome o).ReadsNoPanic := by
+  cases o with
+  | done a => trivial
+  | unmod y => trivial
+  | panic y => exact absurd rfl (h y)
+
+/-- GETRANGE / SUBSTR have no panicking path left, whatever the arguments and the stored bytes -/
+theorem handleSubStr_readsNoPanic (c : Ctx) (cmd : List Bytes) : (handleSubStr c cmd).ReadsNoPanic := by
+  unfold handleSubStr
+  split
+  · intro ex
+    split <;> try trivial
+    dsimp only
+    split <;> try trivial
+    intro vs
+    dsimp only
+    split
+    · exact ofOutcome_readsNoPanic _ (subStrPure_no_panic _ _ _)
+    · trivial
+  · trivial
+
+theorem handleSubStr_no_panic (c : Ctx) (cmd : List Bytes) (s : State) (w : String) :
+    ((handleSubStr c cmd).run c s).2 ≠ .panic w :=
+  readsNoPanic_run c _ s (handleSubStr_readsNoPanic c cmd) w
 
 theorem handleSelect_wf (c : Ctx) (cmd : List Bytes) : (handleSelect c cmd).AllRet Res.WFok := by
   apply allRet_full; unfold handleSelect; wf
@@ -194,7 +259,7 @@ theorem mgetBody_scalars : ∀ (vs : List Val) (body : Bytes), mgetBody vs = som
         obtain ⟨xs, hl, hw, he⟩ := ih rest hr
         simp only [ht, hr, Option.bind_eq_bind, Option.bind_some, Option.pure_def, Option.some.injEq] at h
         subst h
-        refine ⟨(if (t == []) = true then nilBulk else bulkStr t) :: xs, by simp [hl], ?_, by simp [he]⟩
+        refine ⟨(if (v == Val.nil) = true then nilBulk else bulkStr t) :: xs, by simp [hl], ?_, by simp [he]⟩
         intro x hx
         rcases List.mem_cons.mp hx with rfl | hx
         · split
